@@ -3,14 +3,20 @@
 package main
 
 import (
+	"context"
 	"errors"
 	"fmt"
+	"io"
 	"math/rand"
 	"net"
 	nethttp "net/http"
 	"net/url"
+	"os"
 	"sort"
+	"strconv"
 	"strings"
+	"sync"
+	"time"
 	"unicode/utf8"
 
 	"github.com/chihaya/chihaya/bittorrent"
@@ -266,6 +272,8 @@ func c06Replay(o *Out, in map[string]interface{}) error {
 		c06Scrape(o, "replay", string(unhx(in["uri"])), uint32(jU64(in["maxih"])))
 	case "lower":
 		c06Lower(o)
+	case "sock":
+		return c06Sock(o, "replay", jBool(in["scrape"]), string(unhx(in["uri"])), jBool(in["spoof"]), jBool(in["hdr_present"]), string(unhx(in["hdr"])))
 	default:
 		return fmt.Errorf("unknown case type")
 	}
@@ -713,5 +721,251 @@ func c06Stream(o *Out, rng *rand.Rand, n int) {
 			kind = "scrape-damaged"
 		}
 		c06Scrape(o, kind, u, max)
+	}
+
+	// ---- real sockets (thorough tier): route glue, real RemoteAddr and header handling
+	if os.Getenv("VERIF_TIER") == "thorough" || os.Getenv("VERIF_C06_SOCK") != "" {
+		c06SockStream(o, rng, 400)
+	}
+}
+
+// ---------------------------------------------------------------- real sockets
+
+// c06Logic is a TrackerLogic that records the parsed request and then fails
+// with a recognisable client error, so that no response has to be produced.
+type c06Logic struct {
+	mu  sync.Mutex
+	ann *bittorrent.AnnounceRequest
+	scr *bittorrent.ScrapeRequest
+}
+
+const c06Stub = "verif-stub-accepted"
+
+func (l *c06Logic) HandleAnnounce(ctx context.Context, r *bittorrent.AnnounceRequest) (context.Context, *bittorrent.AnnounceResponse, error) {
+	l.mu.Lock()
+	cp := *r
+	l.ann = &cp
+	l.mu.Unlock()
+	return ctx, nil, bittorrent.ClientError(c06Stub)
+}
+func (l *c06Logic) AfterAnnounce(context.Context, *bittorrent.AnnounceRequest, *bittorrent.AnnounceResponse) {
+}
+func (l *c06Logic) HandleScrape(ctx context.Context, r *bittorrent.ScrapeRequest) (context.Context, *bittorrent.ScrapeResponse, error) {
+	l.mu.Lock()
+	cp := *r
+	l.scr = &cp
+	l.mu.Unlock()
+	return ctx, nil, bittorrent.ClientError(c06Stub)
+}
+func (l *c06Logic) AfterScrape(context.Context, *bittorrent.ScrapeRequest, *bittorrent.ScrapeResponse) {}
+
+type c06Server struct {
+	logic *c06Logic
+	addr  string
+	opts  chttp.ParseOptions
+}
+
+var c06Servers = map[bool]*c06Server{}
+
+func c06StartServer(spoof bool) (*c06Server, error) {
+	if s, ok := c06Servers[spoof]; ok {
+		return s, nil
+	}
+	var lastErr error
+	for try := 0; try < 5; try++ {
+		l, err := net.Listen("tcp", "127.0.0.1:0")
+		if err != nil {
+			return nil, err
+		}
+		addr := l.Addr().String()
+		l.Close()
+		lg := &c06Logic{}
+		f, err := chttp.NewFrontend(lg, chttp.Config{Addr: addr, AnnounceRoutes: []string{"/announce"}, ScrapeRoutes: []string{"/scrape"},
+			ReadTimeout: 5 * time.Second, WriteTimeout: 5 * time.Second, IdleTimeout: 5 * time.Second,
+			ParseOptions: chttp.ParseOptions{AllowIPSpoofing: spoof, RealIPHeader: "X-Real-IP", MaxNumWant: 80, DefaultNumWant: 30, MaxScrapeInfoHashes: 3}})
+		if err != nil {
+			lastErr = err
+			continue
+		}
+		s := &c06Server{logic: lg, addr: addr, opts: f.Config.ParseOptions}
+		c06Servers[spoof] = s
+		return s, nil
+	}
+	return nil, lastErr
+}
+
+// c06WireSafe percent-escapes the bytes net/http's request-line parser refuses
+// (controls, space, DEL) and non-ASCII bytes.
+func c06WireSafe(u string) string {
+	var sb strings.Builder
+	for i := 0; i < len(u); i++ {
+		if u[i] <= 0x20 || u[i] >= 0x7f {
+			fmt.Fprintf(&sb, "%%%02X", u[i])
+		} else {
+			sb.WriteByte(u[i])
+		}
+	}
+	return sb.String()
+}
+
+func c06FailureReason(body string) (string, bool) {
+	const key = "14:failure reason"
+	i := strings.Index(body, key)
+	if i < 0 {
+		return "", false
+	}
+	rest := body[i+len(key):]
+	j := strings.IndexByte(rest, ':')
+	if j < 0 {
+		return "", false
+	}
+	n, err := strconv.Atoi(rest[:j])
+	if err != nil || j+1+n > len(rest) {
+		return "", false
+	}
+	return rest[j+1 : j+1+n], true
+}
+
+// c06Sock sends one request over TCP to a real frontend and compares what the
+// route handed to the tracker logic (or the failure reason in the body).
+func c06Sock(o *Out, kind string, scrape bool, uri string, spoof, hdrPresent bool, hdr string) error {
+	srv, err := c06StartServer(spoof)
+	if err != nil {
+		return err
+	}
+	var conn net.Conn
+	for try := 0; try < 50; try++ {
+		conn, err = net.Dial("tcp", srv.addr)
+		if err == nil {
+			break
+		}
+		time.Sleep(20 * time.Millisecond)
+	}
+	if err != nil {
+		return err
+	}
+	defer conn.Close()
+	remote := conn.LocalAddr().String()
+	srv.logic.mu.Lock()
+	srv.logic.ann, srv.logic.scr = nil, nil
+	srv.logic.mu.Unlock()
+	reqText := "GET " + uri + " HTTP/1.1\r\nHost: tracker\r\nConnection: close\r\n"
+	if hdrPresent {
+		reqText += "x-real-ip: " + hdr + "\r\n"
+	}
+	reqText += "\r\n"
+	conn.SetDeadline(time.Now().Add(5 * time.Second))
+	if _, err := io.WriteString(conn, reqText); err != nil {
+		return err
+	}
+	raw, _ := io.ReadAll(conn)
+	resp := string(raw)
+	in := map[string]interface{}{"t": "sock", "scrape": scrape, "uri": hx([]byte(uri)), "spoof": spoof, "hdr_present": hdrPresent, "hdr": hx([]byte(hdr))}
+	msg, ok := c06FailureReason(resp)
+	if !ok {
+		// not a tracker answer (400 from net/http, 404 from the router): outside the modelled code
+		o.dist["sock-not-routed"]++
+		return nil
+	}
+	host, _, _ := net.SplitHostPort(remote)
+	// net/http trims optional whitespace around header values
+	hdrval := ""
+	if hdrPresent {
+		hdrval = strings.Trim(hdr, " \t")
+	}
+	srv.logic.mu.Lock()
+	ann, scr := srv.logic.ann, srv.logic.scr
+	srv.logic.mu.Unlock()
+	var obs string
+	jobs := map[string]interface{}{"remote": remote, "failure_reason": msg}
+	if scrape {
+		switch {
+		case msg == c06Stub && scr != nil:
+			var items []string
+			for _, ih := range scr.InfoHashes {
+				ih := ih
+				items = append(items, cB(ih[:]))
+			}
+			obs = fmt.Sprintf("(OAcc (%s, %s, %s))", cList(items), cB([]byte(scr.Params.RawPath())), cB([]byte(scr.Params.RawQuery())))
+			jobs["class"], jobs["n_ihs"] = "accept", len(scr.InfoHashes)
+		case msg == "internal server error" || msg == c06Stub:
+			obs = "OOther"
+			jobs["class"] = "other_error"
+		default:
+			obs = "(OCli " + cB([]byte(msg)) + ")"
+			jobs["class"] = "client_error"
+		}
+		o.add(Case{Coq: fmt.Sprintf("CScr %s %d %s", cB([]byte(uri)), srv.opts.MaxScrapeInfoHashes, obs), In: in, Obs: jobs, Kind: kind})
+		return nil
+	}
+	switch {
+	case msg == c06Stub && ann != nil:
+		req := ann
+		obs = fmt.Sprintf("(OAcc (Build_oreq %d %s %s %s %s %s %d %s %s %s %s %s %d %d %s %s))",
+			uint8(req.Event), cB(req.InfoHash[:]), cBool(req.Compact), cBool(req.EventProvided), cBool(req.NumWantProvided), cBool(req.IPProvided),
+			req.NumWant, cU(req.Left), cU(req.Downloaded), cU(req.Uploaded),
+			cB(req.Peer.ID[:]), cB(req.Peer.IP.IP), req.Peer.Port, int(req.Peer.IP.AddressFamily), cB([]byte(req.Params.RawPath())), cB([]byte(req.Params.RawQuery())))
+		jobs["class"], jobs["ip"], jobs["port"], jobs["numwant"] = "accept", hx(req.Peer.IP.IP), req.Peer.Port, req.NumWant
+	case msg == "internal server error" || msg == c06Stub:
+		obs = "OOther"
+		jobs["class"] = "other_error"
+	default:
+		obs = "(OCli " + cB([]byte(msg)) + ")"
+		jobs["class"] = "client_error"
+	}
+	var ips []string
+	for _, s := range c06IPCandidates(uri, hdrval, host) {
+		ip := net.ParseIP(s)
+		ips = append(ips, "("+cB([]byte(s))+", "+cOpt(ip != nil, cB(ip))+")")
+	}
+	coq := fmt.Sprintf("CAnn %s %s %s %d %d %s %s %s %s %s", cB([]byte(uri)), cBool(srv.opts.AllowIPSpoofing), cB([]byte(srv.opts.RealIPHeader)),
+		srv.opts.MaxNumWant, srv.opts.DefaultNumWant, cB([]byte(hdrval)), cB([]byte(remote)), cB([]byte(host)), cList(ips), obs)
+	o.add(Case{Coq: coq, In: in, Obs: jobs, Kind: kind})
+	return nil
+}
+
+func c06SockStream(o *Out, rng *rand.Rand, n int) {
+	fails := 0
+	for i := 0; i < n; i++ {
+		g := c06Valid(rng)
+		spoof := rng.Intn(3) == 0
+		if spoof && rng.Intn(2) == 0 {
+			g.kvs = append(g.kvs, c06KV{c06Pick(rng, []string{"ip", "ipv4", "ipv6"}), c06Pick(rng, append(append([]string{}, c06IPTexts...), "garbage", ""))})
+		}
+		switch rng.Intn(8) {
+		case 0:
+			c06SetKV(g, c06Pick(rng, []string{"port", "left", "numwant"}), c06Pick(rng, c06BadNums))
+		case 1:
+			c06DelKV(g, c06Pick(rng, []string{"info_hash", "peer_id", "port", "left"}))
+		case 2:
+			c06SetKV(g, "port", "0")
+		}
+		c06Decorate(rng, g)
+		hdrPresent := rng.Intn(3) == 0
+		hdr := c06Pick(rng, append(append([]string{}, c06IPTexts...), "garbage", "1.2.3", " 198.51.100.4 "))
+		uri := c06WireSafe(c06Render(rng, "/announce", g.kvs))
+		if rng.Intn(12) == 0 {
+			uri += "&x=%zz"
+		}
+		if err := c06Sock(o, "socket-announce", false, uri, spoof, hdrPresent, hdr); err != nil {
+			fails++
+			o.notes["socket_stream_error"] = err.Error()
+			if fails > 3 {
+				return
+			}
+		}
+		if i%4 == 0 {
+			var kvs []c06KV
+			for k := rng.Intn(6); k > 0; k-- {
+				kvs = append(kvs, c06KV{"info_hash", c06ID(rng)})
+			}
+			if rng.Intn(4) == 0 {
+				kvs = append(kvs, c06KV{"x", "y"})
+			}
+			if err := c06Sock(o, "socket-scrape", true, c06WireSafe(c06Render(rng, "/scrape", kvs)), false, false, ""); err != nil {
+				fails++
+				o.notes["socket_stream_error"] = err.Error()
+			}
+		}
 	}
 }
